@@ -1106,7 +1106,7 @@ CHAIN_STEP = re.compile(r"^(put|putbig|del|cur \d+ set|cur \d+ del) ")
 CHAIN_POS = [1, 2, 8, 16, 17, 17, 17, 18, 19, 25, 31, 32, 0]
 
 
-def gen_chain_history(r, nbase, nrandom, profile, big=True):
+def gen_chain_history(r, nbase, nrandom, profile, big=True, order=None):
     comp = profile == "compound"
     base = bytes(r.randrange(1, 255) for _ in range(160))
     bodies = sorted(set(bytes(r.randrange(256) for _ in range(r.choice([1, 3, 20, 120]))) for _ in range(3)))
@@ -1174,7 +1174,7 @@ def gen_chain_history(r, nbase, nrandom, profile, big=True):
 
     # phase A: base keys in monotone order -> full nodes of 32 at known positions (chain order = descending keys)
     nums = [16 * (i + 1) for i in range(nbase)]
-    order = r.choice(["asc", "desc", "desc", "random"])
+    order = order or r.choice(["asc", "desc", "desc", "random"])
     if order == "random":
         load = nums[:]
         r.shuffle(load)
@@ -1209,7 +1209,7 @@ def gen_chain_history(r, nbase, nrandom, profile, big=True):
             putbig(g)                                        # refused by size: must leave the full node as it is
             bigdone = True
         put(g, r.choice([None, None, 300, 700]))
-        if 1 <= p <= 31 and j > 0 and (j - 1) in full[t + 1:] and r.random() < 0.6:
+        if 1 <= p <= 31 and j > 0 and len(nodes[j - 1]) == 32 and (j - 1) not in full[:t] and r.random() < 0.7:
             put(nodes[j - 1][31] - r.randrange(1, 16))        # behind the last key of the full node in front: its upper neighbour (the lower half) has room now
         if r.random() < 0.5:                                  # and again into the same key range: the halves fill up and split again
             lo = nd[min(31, p + 2)] if p < 30 else nd[31] - 15
@@ -1281,7 +1281,7 @@ def explore_chain(ctx, h, drv, sizes, nrandom, label):
     cases = []
     for i, nbase in enumerate(sizes):
         prof = CHAIN_PROFILES[(i + ctx.seed) % len(CHAIN_PROFILES)]
-        g, checks = gen_chain_history(r, nbase, nrandom, prof)
+        g, checks = gen_chain_history(r, nbase, nrandom, prof, order=["desc", "asc", "desc", "random", "asc"][i % 5])
         ops = [l.replace("@IMG", os.path.join(d, "%s-%d-" % (label, i))) for l in g]
         cases.append(Case("chain-" + prof, ops, chain_oracle(ops, checks), key=hash(tuple(ops))))
     ctx.sample(dict(kind="chain-history", n_ops=len(cases[0].ops), first_ops=[l[:80] for l in cases[0].ops[:6]]))
